@@ -7,7 +7,8 @@ LEVEL_TEXT = ("Lean theorems (Props/C13.lean): the tool's token table equals the
               "convert; tie/oracle: listings over the whole keyword vocabulary through the real moto_lst2bas vs the compiled model, "
               "parsed by the Lean structure decoder and compared with the Lean reference encoder on delimited lines.")
 
-SEPS = [" ", ":", ",", "(", ")", ".", "=", "+", "-", "*", "/", "<", ">", "^", "  ", " : "]
+# " =", ":-", "(+", ",<": an operator met with nothing pending stays pending in front of the next word
+SEPS = [" ", ":", ",", "(", ")", ".", "=", "+", "-", "*", "/", "<", ">", "^", "  ", " : ", " =", ":-", "(+", ",<", "=-"]
 IDENTS = ["A", "B1", "X$", "ZZ", "K9", "Q", "YY$", "W2", "H", "J7", "C%", "V"]
 
 
@@ -28,6 +29,8 @@ def gen_line(rng, kws, n):
         parts.append(rng.choice(SEPS))
     if rng.random() < 0.15:
         parts.append('"unterminated for next')
+    if rng.random() < 0.3:
+        parts.pop()                     # the line ends with its last word (keyword, identifier, number or literal)
     body = "".join(parts).rstrip("\n")
     sp = rng.choice([" ", " ", "", "  "])
     return f"{n}{sp}{body}"
@@ -45,7 +48,8 @@ def run(ctx, res):
     texts = []
     n = 1
     for k in kws:
-        for pre, post in ((" ", ""), (":", ":"), ("(", ")"), (" ", " 1"), ("=", ","), ("", " ")):
+        for pre, post in ((" ", ""), (":", ":"), ("(", ")"), (" ", " 1"), ("=", ","), ("", " "),
+                          (" =", ""), (":+", '"x"'), (" -", " "), ("(<", "="), ("=-", ""), ('"s"+', "")):
             texts.append(f"{n} A{pre}{k}{post}\n" if pre.strip() or pre == " " else f"{n} {k}{post}\n")
             n = n % 65000 + 7
     for i in range(0, len(texts), 40):
